@@ -76,6 +76,7 @@ class Sched:
         step_cap=200000,
         trace_files=(),
         probes=None,
+        all_hot=False,
     ):
         self.rng = rng
         self.log = log
@@ -88,6 +89,7 @@ class Sched:
         self.step_cap = step_cap
         self.trace_files = tuple(trace_files)
         self.probes = probes
+        self.all_hot = all_hot
         self.now = 0.0
         self.heap = []
         self.hseq = 0
@@ -193,7 +195,7 @@ class Sched:
                 frame.f_trace_opcodes = True
             # methods can touch shared object state: "hot"; module-level helpers
             # (framing, codecs) work on locals only: "cold".  Only a search bias.
-            if code.co_varnames[:1] == ("self",):
+            if self.all_hot or code.co_varnames[:1] == ("self",):
                 return self._local_trace_hot
             return self._local_trace_cold
         return None
@@ -812,6 +814,25 @@ def install_threading_seam(modules=()):
     }
     import queue as _queue
 
+    qnames = {"Queue": SimQueue, "SimpleQueue": SimQueue, "LifoQueue": SimLifoQueue}
+    for mod in modules:
+        for n in sorted(names):
+            if hasattr(mod, n) and getattr(mod, n) is getattr(threading, n, None):
+                setattr(mod, n, names[n])
+        for n in sorted(qnames):
+            if hasattr(mod, n) and getattr(mod, n) is getattr(_queue, n, None):
+                setattr(mod, n, qnames[n])
+        if getattr(mod, "threading", None) is threading:
+            mod.threading = _Shim(threading, names)
+        if getattr(mod, "queue", None) is _queue:
+            mod.queue = _Shim(_queue, qnames)
+
+
+def patch_modules(modules):
+    """(Re-)apply the synchronisation-object stand-ins to freshly imported modules."""
+    import queue as _queue
+
+    names = {"Lock": SimLock, "RLock": SimRLock, "Event": SimEvent, "Condition": SimCondition, "Semaphore": SimSemaphore, "BoundedSemaphore": SimSemaphore}
     qnames = {"Queue": SimQueue, "SimpleQueue": SimQueue, "LifoQueue": SimLifoQueue}
     for mod in modules:
         for n in sorted(names):
